@@ -84,6 +84,8 @@ struct G
     uint32_t bb_since_point[kMaxClients]; // basic blocks a client executed since its last schedule point
     uint32_t last_ran[kMaxClients];       // decision number at which the client was last given the baton
     uint32_t spin_yields;
+    int      shared_holds[kMaxClients]; // shared acquisitions of the container's own lock currently held
+    uint32_t shared_seen, shared_next, shared_fired;
     int      prio[kMaxClients];
     int      low_prio;
     Event    ev[kMaxEvents];
@@ -373,6 +375,9 @@ void begin_run(const Spec& spec)
     g.fine_seen = g.fine_next = g.fine_fired = 0;
     g.susp_seen = g.susp_next = g.susp_fired = 0;
     g.spin_yields = 0;
+    g.shared_seen = g.shared_next = g.shared_fired = 0;
+    for (int i = 0; i < kMaxClients; ++i)
+        g.shared_holds[i] = 0;
     for (int i = 0; i < kMaxClients; ++i)
     {
         g.bb_since_point[i] = 0;
@@ -494,6 +499,8 @@ uint32_t stalls_fired() { return g.stalls; }
 uint32_t blocked_fired() { return g.blocked; }
 uint32_t relock_fired() { return g.relock; }
 uint32_t spin_yields() { return g.spin_yields; }
+uint32_t shared_seen() { return g.shared_seen; }
+uint32_t shared_fired() { return g.shared_fired; }
 uint32_t fine_fired() { return g.fine_fired; }
 uint32_t susp_seen() { return g.susp_seen; }
 uint32_t susp_fired() { return g.susp_fired; }
@@ -658,6 +665,8 @@ extern "C"
         {
             ++g.held_own[self];
             ++g.locks_in_op[self];
+            if (shared)
+                ++g.shared_holds[self];
             log_event(self, EV_LOCK_ACQ, g.cur_op[self], shared ? 1 : 0);
         }
         return r;
@@ -707,7 +716,11 @@ extern "C"
             if (o->owner == self)
                 o->owner = -1;
             else
+            {
                 o->readers &= ~(1u << self);
+                if (in_range && g.shared_holds[self] > 0)
+                    --g.shared_holds[self];
+            }
         }
         drop_if_free(l);
         if (g.held[self] > 0)
@@ -771,6 +784,21 @@ extern "C"
             ++g.spin_yields;
             point(EV_FINE, g.cur_op[self], 1);
             return;
+        }
+        // (0b) under a shared hold of the container's lock other readers may be inside the same
+        //      critical section: park here at the ordinals the plan names and let another client in
+        if (g.shared_holds[self] > 0 && g.held[self] == g.held_own[self] && tls_in_call > 0)
+        {
+            uint32_t n = g.shared_seen++;
+            while (g.shared_next < g.spec.nshared && g.spec.shared[g.shared_next] < n)
+                ++g.shared_next;
+            if (g.shared_next < g.spec.nshared && g.spec.shared[g.shared_next] == n)
+            {
+                ++g.shared_next;
+                ++g.shared_fired;
+                point(EV_FINE, g.cur_op[self], 1);
+                return;
+            }
         }
         // (1) code that calibration saw under the container's lock, now running inside a call
         //     without it: the locking discipline is not uniform for this code
